@@ -161,6 +161,9 @@ func ModOps(full bool) []Op {
 	add("AddRequire", "b.com/y", "v2.0.0+incompatible")
 	add("AddRetract", "v2.0.0+incompatible", "v2.0.0+incompatible", "wrong major")
 	add("DropRetract", "v2.0.0+incompatible", "v2.0.0+incompatible")
+	// an interval whose bounds are equal as versions and different as strings (both canonical)
+	add("AddRetract", "v1.4.0", "v1.4.0+incompatible", "equal as versions")
+	add("DropRetract", "v1.4.0", "v1.4.0+incompatible")
 	if full {
 		add("AddReplace", "b.com/y", "v2.0.0+incompatible", "c.com/z", "v1.2.0")
 		add("DropReplace", "b.com/y", "v2.0.0+incompatible")
